@@ -10,7 +10,7 @@ CFG = dict(
     trusted=COMMON_TRUSTED + ["go/types + go/constant (installed Go release) as the reference for acceptance, value and type of every constant",
                               "hand-written models Const/YaegiConst.v (Y) of the constant machinery of interp/{cfg,op,typecheck,type,gta,ast,value,run}.go and Const/ConstSem.v (G) of the Go specification, tied by correspondence on generated programs and by function-level correspondence (representableConst, convertConst through verif exports)"],
     level_text="Coq theorems (unbounded: all expression trees of the untyped integer/rune/string/boolean fragment at any depth and magnitude, all const groups over that fragment, all integers against every integer type, all rationals and integers against float32/float64 (one rounding of the exact value); refutation witnesses for the defect regions) about executable models of yaegi's constant folding (Y: decorated trees, repeated visits, go/constant glue, representableConst/convertConst) and of the Go specification (G); Y is tied to the source on every run by evaluating it inside Coq on every generated program and comparing with what yaegi printed or rejected; G is validated against go/types + go/constant on the same programs.",
-    level_note="Trusted: Coq kernel + vm_compute, no axioms; harness; go/types as the reference. The constant code of yaegi is modelled by hand and tied by correspondence (about 6,900 cases per quick run including enumerated boundary literals for every integer width and constants chosen for float32/float64 rounding in every declaration form).",
+    level_note="Trusted: Coq kernel + vm_compute, no axioms; harness; go/types as the reference. The constant code of yaegi is modelled by hand and tied by correspondence (about 8,600 cases per quick run including enumerated boundary literals for every integer width and constants chosen for float32/float64 rounding in every declaration form, and every integer type x width boundary x expression shape x declaration context).",
     technique="Coq proof by induction over expression trees and spec lists + model/implementation correspondence evaluated in Coq",
     assumptions=["complex constants are outside the model",
                  "floating-point infinities and NaN are outside the model: programs in which yaegi's machine arithmetic on typed floats could produce them are not generated (input-side rules, counted as discarded:unmodelled)",
